@@ -355,6 +355,14 @@ func isProbe(c *core.Ctx, fn *ssa.Function) bool {
 
 // glob matches s against pattern p where '*' matches any substring.
 func glob(p, s string) bool {
+	if strings.Contains(p, "||") {
+		for _, alt := range strings.Split(p, "||") {
+			if glob(alt, s) {
+				return true
+			}
+		}
+		return false
+	}
 	parts := strings.Split(p, "*")
 	if len(parts) == 1 {
 		return p == s
@@ -651,4 +659,30 @@ func (a *A) checkAt(cond bool, construct, pos, okDetail, badDetail string) bool 
 		a.violAt(construct, pos, badDetail)
 	}
 	return cond
+}
+
+// appendedElems: for `append(s, x...)` returns the values placed in the variadic array.
+func appendedElems(ci *ssa.Call) []ssa.Value {
+	if len(ci.Call.Args) < 2 {
+		return nil
+	}
+	sl, ok := ci.Call.Args[1].(*ssa.Slice)
+	if !ok {
+		return []ssa.Value{ci.Call.Args[1]}
+	}
+	al, ok := sl.X.(*ssa.Alloc)
+	if !ok {
+		return []ssa.Value{ci.Call.Args[1]}
+	}
+	var out []ssa.Value
+	for _, r := range *al.Referrers() {
+		if ia, ok := r.(*ssa.IndexAddr); ok {
+			for _, rr := range *ia.Referrers() {
+				if st, ok := rr.(*ssa.Store); ok && st.Addr == ssa.Value(ia) {
+					out = append(out, st.Val)
+				}
+			}
+		}
+	}
+	return out
 }
